@@ -26,7 +26,7 @@ ASSUMPTIONS = ["periodic axes have equal end cells (K2 excluded by construction,
 def _case(draw):
     P = draw(problem.problems())
     P['theta'] = draw(st.sampled_from([1.0, 2.0, 5.0, 3.3, 7.7])) * 10.0 ** draw(st.integers(-6, 5))
-    return dict(P=P, rhs_seed=draw(st.integers(0, 2 ** 31 - 1)))
+    return dict(P=P, rhs_seed=draw(st.integers(0, 2 ** 31 - 1)), order_seed=draw(st.integers(0, 2 ** 31 - 1)))
 
 
 def strategy(tier):
@@ -129,6 +129,9 @@ def check(case):
             alpha = alpha0 * (1.0 + 0.5 * k)
             acv.value = alpha.reshape(d)
         tl = [pf.transientTerm(phi, dt, float(P['alpha']) if acv is None else acv)] + spatial + ([tv] if P['scheme'] == 'tvd' else [])
+        # the term list is a sum: its order is arbitrary (the transient pair need not come first)
+        perm = np.random.Generator(np.random.PCG64(case.get('order_seed', 0) + k)).permutation(len(tl))
+        tl = [tl[i] for i in perm]
         pf.solvePDE(phi, tl)
         newfull = np.array(phi._value, float)
         if not np.all(np.isfinite(newfull)):
